@@ -90,6 +90,8 @@ def py_behaviour(kind, weighted, n, length, rng, xs=None):
         r = rng.random()
         if r < 0.30:
             o = {"op": "add_edge", "k": key(), "w": w(), "bad": ""}
+            if weighted and rng.random() < 0.08:
+                o.update({"w": 0, "zero": True})      # weight 0 given explicitly
             o.update(mdarg())
             if kind == "temp" and rng.random() < 0.08:
                 o["bad"] = rng.choice(["neg", "float", "str"])
@@ -106,7 +108,7 @@ def py_behaviour(kind, weighted, n, length, rng, xs=None):
             o = {"op": "add_node", "n": rng.choice(u)}
             o.update(mdarg())
         elif r < 0.62:
-            o = {"op": "set_weight", "k": key(), "w": w() or 1}
+            o = {"op": "set_weight", "k": key(), "w": (0 if weighted and rng.random() < 0.15 else (w() or 1))}
         elif r < 0.68:
             m = rng.randint(1, 3)
             its = []
@@ -117,6 +119,8 @@ def py_behaviour(kind, weighted, n, length, rng, xs=None):
             if weighted and rng.random() < 0.6:
                 for it in its:
                     it["w"] = rng.randint(1, 3)
+                    if rng.random() < 0.1:
+                        it.update({"w": 0, "zero": True})
             if rng.random() < 0.5:
                 for it in its:
                     it.update({"hasmd": False, "md": {}})
